@@ -247,29 +247,8 @@ fn real_id(s: &Session, k: &str) -> String {
     }
 }
 
-fn run(case: &str) -> String {
-    let (ms, script) = case.split_once(" | ").unwrap_or((case, ""));
-    let msgs = parse_msgs(ms);
-    let dir = tempfile::tempdir().unwrap();
-    let path = dir.path().join("t.dlt");
-    let mut bytes = vec![];
-    for m in &msgs {
-        bytes.extend_from_slice(&msg_bytes(m));
-    }
-    std::fs::File::create(&path).unwrap().write_all(&bytes).unwrap();
-    // for the `fs` commands: something that is not an archive under an archive name, and a real archive
-    let _ = std::fs::write(dir.path().join("bad.zip"), b"this is not a zip archive at all");
-    {
-        let mut w = zip::ZipWriter::new(std::fs::File::create(dir.path().join("good.zip")).unwrap());
-        let o = zip::write::SimpleFileOptions::default().compression_method(zip::CompressionMethod::Stored);
-        let _ = w.start_file("a.dlt", o);
-        let _ = w.write_all(b"abc");
-        let _ = w.finish();
-    }
-    let d = dir.path().to_str().unwrap().to_string();
-    // what the library itself reads from that file
-    let expect: Vec<DltMessage> = adlt::utils::DltMessageIterator::new(0, std::io::Cursor::new(bytes)).collect();
-
+/// start `adlt remote` on a free port and connect to it
+pub fn start_server() -> Option<(std::process::Child, tungstenite::WebSocket<tungstenite::stream::MaybeTlsStream<std::net::TcpStream>>)> {
     // start the server and make sure it is *our* child that listens on the port before connecting: the free port is found
     // by binding port 0 and closing again, so a parallel session may grab the same port in between - then our child
     // fails to bind and a connect would reach a foreign server (which dies when its own session ends)
@@ -336,6 +315,33 @@ fn run(case: &str) -> String {
             }
         }
     }
+    started
+}
+
+fn run(case: &str) -> String {
+    let (ms, script) = case.split_once(" | ").unwrap_or((case, ""));
+    let msgs = parse_msgs(ms);
+    let dir = tempfile::tempdir().unwrap();
+    let path = dir.path().join("t.dlt");
+    let mut bytes = vec![];
+    for m in &msgs {
+        bytes.extend_from_slice(&msg_bytes(m));
+    }
+    std::fs::File::create(&path).unwrap().write_all(&bytes).unwrap();
+    // for the `fs` commands: something that is not an archive under an archive name, and a real archive
+    let _ = std::fs::write(dir.path().join("bad.zip"), b"this is not a zip archive at all");
+    {
+        let mut w = zip::ZipWriter::new(std::fs::File::create(dir.path().join("good.zip")).unwrap());
+        let o = zip::write::SimpleFileOptions::default().compression_method(zip::CompressionMethod::Stored);
+        let _ = w.start_file("a.dlt", o);
+        let _ = w.write_all(b"abc");
+        let _ = w.finish();
+    }
+    let d = dir.path().to_str().unwrap().to_string();
+    // what the library itself reads from that file
+    let expect: Vec<DltMessage> = adlt::utils::DltMessageIterator::new(0, std::io::Cursor::new(bytes)).collect();
+
+    let started = start_server();
     let Some((child, ws)) = started else {
         return "NOCONNECT".to_string();
     };
